@@ -5,6 +5,8 @@ selected by the optional filter, and leaves every other module untouched; plus t
 table of `QModuleMixin.forward`.  Helper definitions (`Mod.at?`, `Mod.skeleton`, `Mod.ids`,
 `DecidableEq Mod`) and the mutual inductions live in `Proofs/C08/Lemmas.lean`.
 -/
+import Quanto.Tables
+import Quanto.Generated
 import Proofs.C08.Lemmas
 namespace Quanto
 open C08
@@ -169,5 +171,8 @@ example : (quantizeTree ⟨some [1, 3], some .qint8, some .qint8⟩ C08_exTree).
 example : selected C08_exArgs 1 = true ∧ eligible C08_exArgs .linear = true ∧
     (some ⟨some .qint8, none⟩ : Option QCfg) = some (twinCfg C08_exArgs .linear) :=
   C08_only_eligible_change C08_exArgs C08_exTree ["0"] 1 .linear none _ (by decide) (by decide) (by decide)
+
+/-- the live module registry is the one the model assumes (Linear, Conv2d, LayerNorm) -/
+theorem C08_registry_pinned : Generated.qmoduleRegistry = modelQmoduleRegistry := by decide
 
 end Quanto
